@@ -9,6 +9,7 @@ class Unsupported(Exception):
 
 
 WS_CHARS = None
+CLOSURES = []  # closure table: heap fields of sort Func hold 1-based indices
 DEFAULT_AXIOMS = []
 DEFAULT_AXIOMS_HAS_WS = [False]
 
@@ -89,8 +90,14 @@ def truth(v: Val):
     if isinstance(v, VOpt):
         inner = mk_val(v.sort.the(v.t), v.sort.inner)
         return z3.And(z3.Not(v.sort.is_none(v.t)), truth(inner))
+    if isinstance(v, VRec) and v.sort.nm == "PyVal":
+        k = v.sort.get(v.t, "kind")
+        return z3.If(k == 1, z3.Length(v.sort.get(v.t, "s")) > 0,
+                     z3.If(k == 2, v.sort.get(v.t, "i") != 0,
+                           z3.If(k == 3, v.sort.get(v.t, "b"),
+                                 z3.If(k == 0, z3.BoolVal(False), z3.FreshConst(z3.BoolSort(), "truthy")))))
     if isinstance(v, VRec):
-        return z3.BoolVal(True)
+        return z3.BoolVal(True)  # dataclass instances without __bool__/__len__ are truthy
     if isinstance(v, (VFunc, VType, VModule)):
         return z3.BoolVal(True)
     raise Unsupported("truth of %r" % (v,))
@@ -119,7 +126,7 @@ _DARR = {}
 
 
 def _is_value_default(s: Sort):
-    if isinstance(s, (TIntS, TRefS, TTypeS, TBoolS, TStrS)):
+    if isinstance(s, (TIntS, TRefS, TTypeS, TBoolS, TStrS, TFuncS)):
         return True
     if isinstance(s, TList):
         return _is_value_default(s.elem)
@@ -144,7 +151,7 @@ def const_array(idx_z3sort, elem: Sort, tag="i"):
 
 
 def default_term(s: Sort):
-    if isinstance(s, (TIntS, TRefS, TTypeS)):
+    if isinstance(s, (TIntS, TRefS, TTypeS, TFuncS)):
         return z3.IntVal(0)
     if isinstance(s, TBoolS):
         return z3.BoolVal(False)
@@ -174,6 +181,14 @@ def coerce(v: Val, s: Sort) -> Val:
             return v
         if isinstance(v, VOpt) and isinstance(v.sort.inner, TRefS):
             return VRef(z3.If(v.sort.is_none(v.t), 0, v.sort.the(v.t)), s.cls)
+    if isinstance(s, TFuncS):
+        if isinstance(v, VFuncRef):
+            return v
+        if isinstance(v, VNone):
+            return VFuncRef(z3.IntVal(0))
+        if isinstance(v, VFunc):
+            CLOSURES.append(v)
+            return VFuncRef(z3.IntVal(len(CLOSURES)))
     if isinstance(s, TOpt):
         if isinstance(v, VNone):
             return VOpt(s.none(), s)
